@@ -23,6 +23,7 @@ def run(rep):
     rep.guard(b8, rep, w)
     rep.guard(b9, rep, w)
     rep.guard(b10, rep, w)
+    rep.guard(b11, rep, w)
     import c04_narrow
     rep.guard(c04_narrow.b4, rep, w)
     rep.guard(c04_narrow.b4n, rep, w)
@@ -852,6 +853,20 @@ def b7(rep, w):
     # nothing is emitted after Return inside emit_return
     after = [bi for (bi, k, o, d) in emit.emissions(w, er) if any(bi in er.reachable_blocks(x) and bi != x for x in rets)]
     r.check(not after, 'Return is the last thing emit_return emits', 'emit_return emits bytes after Return', er.loc())
+
+
+def b11(rep, w):
+    """the compiler's picture of the stack and the code agree at every scope exit: end_scope emits the Pop / CloseUpvalue of the scope's
+    locals on every path. Whether the end of a block is reachable is a flow question the single-pass compiler does not answer (a block
+    whose last statement is `if c { .. } else { return ..; }` ends in a Return instruction and is still left by falling through), so
+    no path may skip the pops because of what was emitted last."""
+    r = rep.rule('B11', 'end_scope emits the pops of the scope\'s locals on every path', floor=1)
+    f = w.require_fn(P + 'end_scope', 'C04')
+    ends = {bi for bi, t in f.calls() if callee_name(t) == P + 'emit_scope_end'}
+    if not ends:
+        ends = {bi for (bi, k, o, d) in emit.emissions(w, f) if o in ('Pop', 'CloseUpvalue')}
+    r.check(bool(ends) and c01.all_paths_hit(f, None, ends), 'end_scope: emit_scope_end on every path', 'end_scope can leave a scope without emitting the pops for its locals: on a path that '
+            'falls out of the block the locals stay on the stack and every later local of the function is read one slot off', f.loc())
 
 
 # ---- B5 -------------------------------------------------------------------------------------------------------------
